@@ -16,7 +16,7 @@ from model import SVC_TYPES, BOOL_TRUE, BOOL_FALSE
 from runner import ddmin
 import runner
 
-SVCS = ["s0.example.org", "s1.example.org", "S2.Example.Org", "s3.example.org"]
+SVCS = ["s0.example.org", "s1.example.org", "S2.Example.Org", "s3.example.org", "s1.example", "s1.example.org.uk"]
 RULES = ["r0", "r1", "R2", "r3", "Ra"]
 
 
